@@ -6,8 +6,7 @@ Proved here for every input (and every behaviour of `idna.ToASCII`):
   * `IsValidHostname(s)`      ⇔ `ValidateHostname(s) == nil`
   and neither panics.
 The IP halves (`IsValidIPString` ⇔ `netip.ParseAddr`, `IsValidIPPortString` ⇔
-`netip.ParseAddrPort`) are stated in `Theorems/C02IP.lean` (see there for what is proved);
-until complete they are decided by correspondence + exhaustive enumeration on every run.
+`netip.ParseAddrPort`) are proved in `Theorems/C02IP.lean`.
 -/
 import GolibsVerif.Lemmas.C02Host
 
